@@ -1213,8 +1213,8 @@ class Reg(SeqKind):
                          reset_value=p['rv'] if p['rv'] else None)
 
     def init(self, p, iw, ow):
-        # documented power-up: the q wire shows 0 until the first edge; the held value is the reset value
-        return (p['rv'], 0)
+        # power-up: the register holds its reset value and q shows it (as `reg rq = <reset value>` in Verilog)
+        return (p['rv'], M(p['rv'], ow[0]))
 
     def outs(self, p, st, iv, iw, ow):
         return [M(st[1], ow[0])]
